@@ -10,6 +10,7 @@ from __future__ import annotations
 
 import hashlib
 import json
+import logging
 import os
 import sys
 import time
@@ -119,6 +120,42 @@ def brief(obj, limit=400):
 
 # ------------------------------------------------------------------------------------------
 
+# ------------------------------------------------------------------------------------------
+# ambient conditions of the process: none of the properties depends on them, so a share of the cases runs with them
+# changed.  Currently: DEBUG logging enabled for every logger, with a handler that formats each record (a library
+# that logs must not behave differently because somebody reads its log).
+
+class _Sink(logging.Handler):
+    def emit(self, record):
+        try:
+            record.getMessage()
+        except Exception:       # (as logging itself does: a record that cannot be formatted is the application's loss)
+            pass
+
+
+_SINK = _Sink()
+_AMBIENT = {'logging': False, 'default': False}
+
+
+def set_logging(on):
+    root = logging.getLogger()
+    if on and not _AMBIENT['logging']:
+        _AMBIENT['saved_level'] = root.level
+        root.setLevel(1)
+        root.addHandler(_SINK)
+    elif not on and _AMBIENT['logging']:
+        root.setLevel(_AMBIENT.get('saved_level', logging.WARNING))
+        root.removeHandler(_SINK)
+    _AMBIENT['logging'] = bool(on)
+
+
+def ambient_case(case):
+    """The replay case, marked when it was met under changed ambient conditions."""
+    if _AMBIENT['logging'] and isinstance(case, dict) and '_ambient_logging' not in case:
+        return dict(case, _ambient_logging=True)
+    return case
+
+
 class Ctx(object):
     """Per-run accounting object handed to every check."""
 
@@ -170,7 +207,7 @@ class Ctx(object):
         """Record a violation without raising (for enumerations that collect all failures)."""
         ent = self.failures.get(key)
         if ent is None:
-            self.failures[key] = {'what': what, 'case': case, 'count': 1}
+            self.failures[key] = {'what': what, 'case': ambient_case(case), 'count': 1}
         else:
             ent['count'] += 1
 
@@ -221,15 +258,19 @@ def hyp_search(ctx, strategy, fn, max_examples, name='', max_buckets=6, shrink=T
                                          HealthCheck.filter_too_much,
                                          HealthCheck.large_base_example],
                   print_blob=False)
-        @given(strategy)
-        def test(value):
+        @given(strategy, hypothesis.strategies.integers(0, 3))
+        def test(value, ambient):
+            set_logging(ambient == 3 or _AMBIENT['default'])
             try:
                 fn(value)
             except Violation as v:
                 if v.key in ignored:
                     return
+                v.case = ambient_case(v.case)
                 last['v'] = v
                 raise
+            finally:
+                set_logging(_AMBIENT['default'])
 
         try:
             test()
@@ -372,6 +413,8 @@ def _shard_entry(args):
     modname, funcname, prop, tier, seed, level, job = args
     import importlib
     sub = Ctx(prop, tier, seed, level)
+    _AMBIENT['default'] = (seed % 4 == 3)         # every fourth shard as a whole
+    set_logging(_AMBIENT['default'])
     try:
         func = getattr(importlib.import_module(modname), funcname)
         func(sub, job)
